@@ -25,7 +25,7 @@ EXPLANATION = (
 FUNCTIONS = ["ConvertFuncToX86FuncPass", "ConvertArithToX86Pass", "reconcile-unrealized-casts", "X86RegisterAllocator / x86-allocate-registers", "X86PrologueEpilogueInsertion",
              "x86 op classes (operand conventions of rs/ri/ds/di/dm/ms/push/pop forms)"]
 ASSUMPTIONS = ["x86-64 integer subset semantics vx/x86sem.py (mov/add/sub/imul/and/or/xor/lea/push/pop; mov r64, imm32 sign-extends)", "SysV: args in rdi,rsi,rdx,rcx,r8,r9; result in rax; callee-saved rbx,rbp,r12-r15"]
-OUTSIDE = ["that the text assembles with the system assembler and the native run (the text of each CONCRETE immediate and memory offset, produced by the real assembly_arg_str / assembly_line, is read back and must denote the operand the reference machine executes; text rendered from a symbolic 64-bit immediate is not modelled)", "stack-passed arguments", "i32 functions other than the live*_i32 / const_i32 programs; i8/i16", "floating point / AVX ops"]
+OUTSIDE = ["that the text assembles with the system assembler and the native run (the text of each CONCRETE immediate and memory offset, produced by the real assembly_arg_str / assembly_line, is read back and must denote the operand the reference machine executes; text rendered from a symbolic 64-bit immediate is not modelled)", "more than eight arguments; stack-passed arguments of i32 functions", "i32 functions other than the live*_i32 / const_i32 programs; i8/i16", "floating point / AVX ops"]
 STUBS = []
 
 PIPE = "convert-func-to-x86-func,convert-arith-to-x86,reconcile-unrealized-casts,canonicalize,dce,x86-allocate-registers,canonicalize,x86-prologue-epilogue-insertion"
@@ -55,6 +55,19 @@ PROGRAMS = {
 for _k in range(4, 12):
     PROGRAMS[f"live{_k}"] = (3, _live(_k))
     PROGRAMS[f"live{_k}_6args"] = (6, _live(_k, 6))
+# eight arguments: the 7th and 8th arrive on the caller's stack at [rsp+8], [rsp+16] (rsp on entry), read while callee-saved registers are pushed
+def _stack(k):
+    lines = [f"%v{i} = arith.muli %a{(i + 5) % 8}, %a{(i + 6) % 8} : i64" for i in range(k)]
+    acc = "%v0"
+    for i in range(1, k):
+        lines.append(f"%w{i} = arith.addi {acc}, %v{i} : i64")
+        acc = f"%w{i}"
+    lines.append(f"%r = arith.addi {acc}, %a7 : i64")
+    return "\n ".join(lines)
+
+
+for _k in (2, 3, 4):
+    PROGRAMS[f"stack8_{_k}"] = (8, _stack(_k))
 # i32 functions: values live in the 32-bit names (ebx, r13d, ...) of the same physical registers, whose 64-bit contents the callee must preserve
 for _k in range(3, 8):
     PROGRAMS[f"live{_k}_i32"] = (3, _live(_k).replace("i64", "i32"))
@@ -62,7 +75,7 @@ PROGRAMS["const_i32"] = (2, "%k = arith.constant -100000 : i32\n %s = arith.addi
 
 
 def bounds(tier):
-    return {"programs": sorted(PROGRAMS), "arguments": "1-6 x i64, 2-3 x i32 (upper register halves arbitrary)", "constants": "symbolic 64 bit"}
+    return {"programs": sorted(PROGRAMS), "arguments": "1-6 x i64, 8 x i64 (two on the caller's stack), 2-3 x i32 (upper register halves arbitrary)", "constants": "symbolic 64 bit"}
 
 
 def obligations(tier):
@@ -130,6 +143,15 @@ def harness(ob, concrete=None):
         else:
             for r_ in x86sem.CALLEE_SAVED + ["rsp"]:
                 mach.r[r_] = mach.init[r_] = z3.BitVecVal(concrete.get(r_, 0x20000 if r_ == "rsp" else 0), 64)
+        if concrete is None:
+            ex.named["ret_addr"] = SymInt.from_bv(mach.load(mach.init["rsp"], 8))
+        else:
+            # replay: memory is zero except for the return-address slot and the stack-passed arguments
+            mach.mem = z3.K(z3.BitVecSort(64), z3.BitVecVal(0, 8))
+            mach.store(mach.init["rsp"], z3.BitVecVal(concrete.get("ret_addr", 0), 64), 8)
+        for k_, a in enumerate(args[len(x86sem.ARG_REGS):]):
+            # SysV: arguments beyond the sixth are on the caller's stack above the return address
+            mach.store(mach.init["rsp"] + 8 * (k_ + 1), a if a.size() == 64 else z3.SignExt(64 - a.size(), a), 8)
         mem0 = mach.mem
         del x86sem.EMIT[:]
         done = False
